@@ -52,6 +52,7 @@ def generate(run_seed, tier):
         g = W.Generator(rw, ref_compute, families=fams, knob_space=W.knob_space_default(), max_ops=7 if tier == "quick" else 9,
                         pool_knobs=True, knob_prob=0.6)
         g.allow_partition_size = True
+        g.accept_internal_failures = True
         recipe = g.generate(n_targets=rw.choice([1, 2, 2]))
         if recipe is None or not recipe["targets"]:
             return None
